@@ -218,7 +218,7 @@ def b_runs(tier, seed):
             if not t[-1] >= t1 - 1e-12:
                 failures.append({"what": f"{name}: grid ends before t1", "input": {"t1": t1, "dt": dt}, "detail": f"t[-1]={t[-1]}"})
             if nt > 1 and t[-2] >= t1 - 1e-12 * 0 and t[-2] >= t1:
-                failures.append({"what": f"{name}: grid overshoots: an earlier point is already >= t1 (floating point)", "input": {"t1": t1, "dt": dt}, "detail": f"t[-2]={t[-2]!r} >= t1={t1!r}"})
+                failures.append({"what": f"{name}: grid overshoots: an earlier point is already >= t1 (floating point), t1={t1}, dt={dt}", "input": {"t1": t1, "dt": dt}, "detail": f"t[-2]={t[-2]!r} >= t1={t1!r}"})
             for fld, width in (("q", s.nq), ("u", s.nu), ("la_g", s.nla_g), ("la_gamma", s.nla_gamma), ("la_N", s.nla_N), ("la_F", s.nla_F)):
                 a = getattr(sol, fld, None)
                 if a is None:
